@@ -202,3 +202,52 @@ func verifSpec(text string) vSortSpec {
 	}
 	panic("verif: no such sort spec: " + text)
 }
+
+// VerifC02_QueryOverProvidedCursor: QueryWithCursorC pages and sorts over the
+// ids a caller-supplied cursor yields (here an arbitrary subset of the rows,
+// served in the direction the scanner asks for): count, page and order are
+// those of the reference model restricted to that subset.
+func VerifC02_QueryOverProvidedCursor() {
+	n := 2
+	if verifrt.Tier() == 1 {
+		n = 3
+	}
+	specs := []vSortSpec{verifSpec("m = true"), verifSpec("m = true sort by id desc"), verifSpec("m = true sort by i desc")}
+	spec := specs[verifrt.Choose("spec", len(specs))]
+	env := verifNewRowEnv()
+	defer env.close()
+	rows := verifC02Rows(n, spec.fields)
+	sub := make([]bool, n)
+	var subRows []*vRow
+	for r := range rows {
+		sub[r] = verifrt.Bool("in.cursor")
+		if sub[r] {
+			subRows = append(subRows, rows[r])
+		}
+	}
+	err := env.update(func(ctx MutateContext) error {
+		for _, r := range rows {
+			if err := env.rows.Create(ctx, r); err != nil {
+				return err
+			}
+		}
+		return nil
+	})
+	verifrt.Assert(err == nil, "C02 creating rows succeeds")
+	p := verifrt.SymPaging()
+	provider := func(tx *bbolt.Tx, forward bool) ast.SetCursor {
+		ts := ast.NewTreeSet(forward)
+		for _, r := range subRows {
+			ts.Add([]byte(r.Id))
+		}
+		return ts.ToCursor()
+	}
+	env.view(func(tx *bbolt.Tx) {
+		q, err := ast.Parse(env.rows, spec.text)
+		verifrt.Assert(err == nil, "C02 query parses: "+spec.text)
+		p.Apply(q)
+		ids, count, err := env.rows.QueryWithCursorC(tx, provider, q)
+		verifrt.Assert(err == nil, "C02 query over a provided cursor runs")
+		verifrt.CheckPage(verifToRows(subRows), verifMatchBits(subRows), spec.fields, p, ids, count, "C02 provided cursor: "+spec.text)
+	})
+}
